@@ -316,3 +316,24 @@ func overlapI32(a, b []int32) bool {
 	b0 := uintptr(unsafe.Pointer(unsafe.SliceData(b)))
 	return a0 < b0+4*uintptr(cap(b)) && b0 < a0+4*uintptr(cap(a))
 }
+
+// overlapW is overlapI32 for word slices: a result of the same element type as an argument must not be a view of it
+// (a caller who appends to the result, or overwrites it, would write into its own input).
+func overlapW(a, b []uint64) bool {
+	if cap(a) == 0 || cap(b) == 0 {
+		return false
+	}
+	a0 := uintptr(unsafe.Pointer(unsafe.SliceData(a)))
+	b0 := uintptr(unsafe.Pointer(unsafe.SliceData(b)))
+	return a0 < b0+8*uintptr(cap(b)) && b0 < a0+8*uintptr(cap(a))
+}
+
+// overlapB: the same for byte slices.
+func overlapB(a, b []byte) bool {
+	if cap(a) == 0 || cap(b) == 0 {
+		return false
+	}
+	a0 := uintptr(unsafe.Pointer(unsafe.SliceData(a)))
+	b0 := uintptr(unsafe.Pointer(unsafe.SliceData(b)))
+	return a0 < b0+uintptr(cap(b)) && b0 < a0+uintptr(cap(a))
+}
